@@ -139,10 +139,16 @@ def run(ctx):
     ctx.add_tlc(r, "swap . swap = identity on multisets and sums; third group untouched")
     if not r.ok:
         raise tlc.TLCError("spec-level failure in MC_Coupling:\n" + r.stdout[-3000:])
-    r = tlc.run("MC_Coupling", "Gen_Coupling.cfg" if ctx.thorough() else "Gen_Coupling_q.cfg", workers=1, timeout=1800)
+    gcfg = "Gen_Coupling.cfg"
+    if not ctx.thorough():
+        # the quick tier replays one residue class (mod 5, chosen by the seed) of the configurations
+        import os as _os
+        gcfg = _os.path.join(tlc.workdir("c15"), "gen.cfg")
+        open(gcfg, "w").write(open(_os.path.join(tlc.TLA_DIR, "Gen_Coupling_q.cfg")).read().replace("EmitRes = 0", "EmitRes = %d" % (ctx.seed % 5)))
+    r = tlc.run("MC_Coupling", gcfg, workers=1, timeout=1800)
     ctx.add_tlc(r, "swap configuration generator")
     bad = {}
-    stride = 1 if ctx.thorough() else 29
+    stride = 1 if ctx.thorough() else 6
     from propka.parameters import Parameters
     NCCG.parameters = NCCG.parameters or Parameters()
     for n, c in enumerate(r.printed):
